@@ -268,6 +268,9 @@ pub fn start_job(command: Arc<Command>) -> (Job, JoinHandle<()>) {
 										}
 									}
 
+									// the restart is being carried out now, not at the next process end
+									on_end_restart = None;
+
 									let mut spawnable = command.to_spawnable();
 									previous_run = Some(command_state.reset());
 									spawn_hook
